@@ -282,7 +282,7 @@ VAL, RET, CONT, BRK = "val", "ret", "cont", "brk"
 
 
 class Sym:
-    def __init__(self, fx, opaque=lambda path: False, inline_depth=4, models=None, krates=("proguard",), inline_mut=False, thread_places=False):
+    def __init__(self, fx, opaque=lambda path: False, inline_depth=4, models=None, krates=("proguard",), inline_mut=False, thread_places=False, string_values=False):
         self.fx = fx
         self.opaque = opaque
         self.inline_depth = inline_depth
@@ -291,6 +291,9 @@ class Sym:
         # inside it see the current value, its writes are visible to the caller afterwards) - a cursor object with `&mut self`
         # methods then evaluates like the straight-line code it replaces. Opt-in: rules that read place *effects* do not want it.
         self.thread_places = thread_places
+        # String::push_str on a local whose value is known also updates that value (`strcat(old, piece)`), so the string a
+        # function builds can be read off its result whichever way it was assembled. Opt-in.
+        self.string_values = string_values
         self.tsubst = []                  # stack of {generic parameter name: concrete type} of the helpers being inlined
         self.loops = {}       # id(loop node) -> dict(node, entry, paths)
         self._reserved = {}
